@@ -400,3 +400,190 @@ fn run_case(seed: u64, idx: usize, out: &mut Out) {
         out.sample(json!({"schedule": desc, "history": log.iter().map(|e| e.to_json()).collect::<Vec<_>>()}));
     }
 }
+
+// ------------------------------------------------------------------------------------------
+// server leg: the same clauses through the real binary's Query / BulkQuery RPCs
+// ------------------------------------------------------------------------------------------
+
+#[derive(Clone, Copy, Debug, PartialEq)]
+enum St {
+    Absent,
+    Present(u64),
+}
+
+/// One writer per id (so the version order is the writer's program order), several readers on
+/// other connections. Every write carries a unique id both in the vector (lane 0) and in the
+/// metadata ("w"). Monitors: vector and metadata of one read belong to the same write; a read
+/// returns the state left by the last write completed before it began or by a write overlapping it.
+pub fn run_server(args: &Args) -> Out {
+    use crate::srv::*;
+    use std::collections::HashMap;
+    use std::sync::atomic::{AtomicBool, Ordering};
+    use std::sync::{Arc, Mutex};
+    use std::time::Instant;
+    let mut out = Out::new("C05", "server-reads");
+    let Some(bin) = args.get("server").map(|s| s.to_string()) else {
+        out.note("no server binary");
+        return out;
+    };
+    let rt = new_rt();
+    for idx in 0..args.n(16, 160) {
+        if !args.mine(idx) {
+            continue;
+        }
+        let mut rng = Rng::derive(args.seed, idx as u64, 0xC05_5);
+        let cfg = SrvCfg {
+            dim: 4,
+            distance: "euclidean",
+            tenants: vec![TenantSpec { id: "solo".into(), max_vectors: 100_000, max_qps: 0, enabled: true, admin: false }],
+            fsync: "data_only",
+            cache_capacity: *rng.pick(&[1usize, 4, 64]),
+            ..Default::default()
+        };
+        let desc = json!({"check":"C05","leg":"server-reads","seed":args.seed,"case":idx,"cache_capacity":cfg.cache_capacity});
+        let mut srv = Srv::new(cfg, &bin, rt.clone());
+        if let Err(e) = srv.start() {
+            out.inconclusive(format!("server start failed: {}", e));
+            continue;
+        }
+        let nids = rng.range(1, 2);
+        let writes_per_id = if args.thorough { 600 } else { 250 };
+        let readers = rng.range(2, 4) as usize;
+        let t0 = Instant::now();
+        // per id: log of (call_ns, ret_ns, state after the op)
+        let logs: Arc<Vec<Mutex<Vec<(u128, u128, St)>>>> = Arc::new((0..nids).map(|_| Mutex::new(Vec::new())).collect());
+        let stop = Arc::new(AtomicBool::new(false));
+        let mut writers = Vec::new();
+        for k in 0..nids {
+            let Ok(mut cl) = srv.tenant_client("solo") else { continue };
+            let logs = logs.clone();
+            let mut wrng = Rng::derive(args.seed, idx as u64, 0x5000 + k);
+            writers.push(std::thread::spawn(move || {
+                let id = k + 1;
+                for w in 1..=writes_per_id as u64 {
+                    let del = wrng.chance(0.12);
+                    let call = t0.elapsed().as_nanos();
+                    let st = if del {
+                        match cl.delete(id, "") {
+                            Ok(_) => St::Absent,
+                            Err(_) => break,
+                        }
+                    } else {
+                        let mut md = HashMap::new();
+                        md.insert("w".to_string(), w.to_string());
+                        match cl.insert(id, vec![w as f32, 1.0, 0.0, 0.0], md, "") {
+                            Ok(r) if r.success => St::Present(w),
+                            _ => break,
+                        }
+                    };
+                    let ret = t0.elapsed().as_nanos();
+                    logs[k as usize].lock().unwrap().push((call, ret, st));
+                }
+            }));
+        }
+        // (id index, rpc, call, ret, observed state, vector write id, metadata write id)
+        let reads: Arc<Mutex<Vec<(usize, &'static str, u128, u128, St, Option<u64>)>>> = Arc::new(Mutex::new(Vec::new()));
+        let mut rhandles = Vec::new();
+        for r in 0..readers {
+            let Ok(mut cl) = srv.tenant_client("solo") else { continue };
+            let (reads, stop) = (reads.clone(), stop.clone());
+            let mut rrng = Rng::derive(args.seed, idx as u64, 0x6000 + r as u64);
+            rhandles.push(std::thread::spawn(move || {
+                let mut local = Vec::new();
+                while !stop.load(Ordering::SeqCst) {
+                    let k = rrng.below(nids) as usize;
+                    let id = k as u64 + 1;
+                    let bulk = rrng.chance(0.4);
+                    let call = t0.elapsed().as_nanos();
+                    let (found, emb, meta) = if bulk {
+                        match cl.bulk_query(vec![id], true, "") {
+                            Ok(mut b) if b.results.len() == 1 => {
+                                let q = b.results.remove(0);
+                                (q.found, q.embedding, q.metadata)
+                            }
+                            _ => break,
+                        }
+                    } else {
+                        match cl.query(id, true, "") {
+                            Ok(q) => (q.found, q.embedding, q.metadata),
+                            Err(_) => break,
+                        }
+                    };
+                    let ret = t0.elapsed().as_nanos();
+                    let vw = emb.first().map(|x| *x as u64);
+                    let mw = meta.get("w").and_then(|s| s.parse::<u64>().ok());
+                    let st = if found { St::Present(vw.unwrap_or(0)) } else { St::Absent };
+                    local.push((k, if bulk { "BulkQuery" } else { "Query" }, call, ret, st, if found { mw } else { None }));
+                }
+                reads.lock().unwrap().extend(local);
+            }));
+        }
+        for w in writers {
+            let _ = w.join();
+        }
+        stop.store(true, Ordering::SeqCst);
+        for r in rhandles {
+            let _ = r.join();
+        }
+        srv.kill9();
+        let reads = reads.lock().unwrap().clone();
+        let mut judged = 0u64;
+        let mut overlapping = 0u64;
+        let mut bad = false;
+        for (k, rpc, call, ret, st, mw) in reads.iter() {
+            let log = logs[*k].lock().unwrap();
+            // clause: vector and metadata of one read belong to the same write
+            if let St::Present(vw) = st {
+                if Some(*vw) != *mw {
+                    out.violation(
+                        format!("server-torn-read|{}", rpc),
+                        format!("{} of id {} returned the vector of write {} with the metadata of write {:?}", rpc, k + 1, vw, mw),
+                        json!({"desc":desc,"rpc":rpc}),
+                    );
+                    bad = true;
+                    break;
+                }
+            }
+            // allowed states: after the last op completed before the read began, or after any op that overlaps the read
+            let last_before = log.iter().rposition(|(_, r, _)| r < call);
+            let mut allowed: Vec<St> = vec![match last_before {
+                Some(i) => log[i].2,
+                None => St::Absent,
+            }];
+            let from = last_before.map(|i| i + 1).unwrap_or(0);
+            for (c, _, s) in log.iter().skip(from) {
+                if c < ret {
+                    allowed.push(*s);
+                } else {
+                    break;
+                }
+            }
+            if allowed.len() > 1 {
+                overlapping += 1;
+            }
+            judged += 1;
+            if !allowed.contains(st) {
+                let sig = match st {
+                    St::Absent => "server-read-misses-completed-write",
+                    St::Present(_) if allowed.iter().all(|a| *a == St::Absent) => "server-read-returns-deleted-document",
+                    St::Present(_) => "server-read-returns-stale-or-foreign-version",
+                };
+                out.violation(
+                    format!("{}|{}", sig, rpc),
+                    format!("{} of id {} over [{} ns, {} ns] observed {:?}; explained states are {:?}", rpc, k + 1, call, ret, st, allowed),
+                    json!({"desc":desc,"rpc":rpc}),
+                );
+                bad = true;
+                break;
+            }
+        }
+        out.eval();
+        out.distinct(&(idx, judged));
+        out.count("server_reads_judged", judged);
+        out.count("server_reads_overlapping_a_write", overlapping);
+        if !bad && idx % 4 == 0 {
+            out.sample(json!({"case":desc,"reads":judged,"reads_overlapping_a_write":overlapping,"writes_per_id":writes_per_id}));
+        }
+    }
+    out
+}
